@@ -3,6 +3,7 @@ package c06
 import (
 	"context"
 	"fmt"
+	"os"
 	"testing"
 
 	"github.com/codenotary/immudb/pkg/api/schema"
@@ -11,13 +12,24 @@ import (
 // Standalone reproduction of the defect "index compaction moves the index back in time while
 // the indexing watermark stays where it was": one client, no concurrency besides CompactIndex.
 //
-//	. /verif/bin/env.sh && cd /verif/harness && go test -tags verif -count=1 -run TestCompactionStaleRead ./mon/c06/
+//	. /verif/bin/env.sh && cd /verif/harness && VERIF_C06_REPRO=1 go test -tags verif -count=1 -run TestCompactionStaleRead ./mon/c06/
+//
+// (opt-in through VERIF_C06_REPRO=1: it fails for as long as the defect is present.)
 //
 // After a Set was acknowledged (default waiting semantics: committed and indexed), a Get of the
 // same key issued afterwards by the same client returns an older value or key-not-found when a
 // concurrent CompactIndex has just swapped in the index it dumped from an older snapshot.
 func TestCompactionStaleRead(t *testing.T) {
-	db, err := openDB(t.TempDir(), caseSpec{FlushThld: 1000, CompThld: 1, VLogCache: 16})
+	if os.Getenv("VERIF_C06_REPRO") != "1" {
+		t.Skip("reproduction of a known defect: set VERIF_C06_REPRO=1 to run it")
+	}
+	os.MkdirAll("/var/tmp/verif-scratch", 0o755)
+	dir, err := os.MkdirTemp("/var/tmp/verif-scratch", "c06-repro-")
+	if err != nil {
+		t.Fatal(err)
+	}
+	defer os.RemoveAll(dir)
+	db, err := openDB(dir, caseSpec{FlushThld: 1000, CompThld: 1, VLogCache: 16})
 	if err != nil {
 		t.Fatal(err)
 	}
